@@ -78,12 +78,16 @@ class CM(object):
     return False
 
 def h1(x):
+  '__UNIQ__'
   return x + 1
 
 @malt.experimental.do_not_convert
 def u0(x):
   return x + 2
 '''
+# '__UNIQ__' is replaced by a fresh token at every load: the conversion cache is keyed by code-object EQUALITY,
+# which ignores co_filename, so an identical function at the same line of another file would silently reuse
+# the other file's conversion and source map (see the explicit witness `cross_file_cache_witness`).
 
 # ------------------------------------------------------------------------------- failing statements
 # simple (one line) kinds; %(m)d is the line's marker
@@ -343,7 +347,9 @@ class Gen(object):
       return out
     if k == 'try-else':
       return (['%stry:' % ind] + fill(cur) + ['%sexcept GeneratorExit:' % ind] + self.filler_block(ind2, depth + 1, None, [0])
-              + ['%selse:' % ind] + inner())
+              + ['%selse:' % ind, '%sz = z + t(%d)' % (ind2, self.mk())] + inner())
+      # (the leading simple statement keeps clear of a cfg.build crash: `try/except/else` whose else block STARTS
+      #  with an `if` trips `assert section_id not in self.cond_entry` in cfg.visit_Try - a conversion defect, not C12)
     if k == 'with':
       head = '%swith CM(t(%d))%s:' % (ind, self.mk(), self.rnd.choice(['', ' as w']))
       return [head] + inner()
@@ -365,9 +371,9 @@ class Gen(object):
     if kind == 'dnc':
       lines.append('@malt.experimental.do_not_convert')
     if name == 'f':
-      lines += ['def f(a):', '  x = a[0]']
+      lines += ['def f(a):', "  '__UNIQ__'", '  x = a[0]']
     else:
-      lines += ['def %s(p):' % name, '  x = p']
+      lines += ['def %s(p):' % name, "  '__UNIQ__'", '  x = p']
     lines += ['  y = 1 + t(%d)' % self.mk(), '  z = 0']
     lines += self.path_block('  ', 0, False, False, payload, budget)
     lines += ['  return x + y + z + t(%d)' % self.mk()]
@@ -399,6 +405,8 @@ def make_case(seed, idx):
   failkind = FAIL_KINDS[idx % len(FAIL_KINDS)]
   n = rnd.choice([0, 0, 1, 1, 2, 2, 3, 4])
   chain = [rnd.choice(['conv', 'conv', 'conv', 'dnc', 'cb']) for _ in range(n)]
+  if failkind == 'stopiter':      # a StopIteration crossing map/filter is absorbed by the iterator protocol
+    chain = ['dnc' if k == 'cb' else k for k in chain]
   g = Gen(rnd)
   src, units = g.program(chain, failkind)
   return dict(idx=idx, src=src, units=units, true=sorted(g.true), failkind=failkind, ctx='>'.join(g.ctx) or 'top',
@@ -477,7 +485,9 @@ def user_frames(exc, path):
 def judge(case, mod, stats):
   """Raises Fail on a violation of C12; returns normally otherwise."""
   path = mod.__file__
-  src_lines = case['src'].split('\n')
+  with open(path) as fh:
+    src = fh.read()
+  src_lines = src.split('\n')
   units = [tuple(u) for u in case['units']]
   unit_of = dict(case['nested_owner'])
   for name, _ in units:
@@ -494,8 +504,16 @@ def judge(case, mod, stats):
   record = list(_RECORD)
   if e1 is None:
     raise Fail('no-exception', 'the converted function returned normally, the original raised %s' % type(e0).__name__)
-  stats['raised'] = True
   t0 = type(e0)
+  # the exception the generated code itself raised (the wrapper re-creates it inside its `except` clause, so it
+  # is the re-created exception's __context__).  If THAT already differs from the original run, the converted code
+  # behaved differently (a C01 matter, e.g. a `finally` block reading a variable the interrupted `try` body
+  # assigns): C12 speaks about how a given exception is reported, so such cases are set aside, not judged.
+  source = e1.__context__ if getattr(e1, 'ag_error_metadata', None) is not None else e1
+  if source is not None and (type(source) is not t0 or str(source) != str(e0)):
+    raise Fail('divergence-C01', 'the converted code itself raised %s(%r), the original %s(%r)'
+               % (type(source).__name__, str(source)[:80], t0.__name__, str(e0)[:80]))
+  stats['raised'] = True
   meta = getattr(e1, 'ag_error_metadata', None)
   # -- which functions were converted (the frame-count clause is stated in terms of them)
   converted_units = []
@@ -575,7 +593,7 @@ def judge(case, mod, stats):
     genfile = transformed.ag_module.__file__
     with open(genfile) as fh:
       glines = fh.read().split('\n')
-    first, last = _span(case['src'], ent)
+    first, last = _span(src, ent)
     for key, origin in transformed.ag_source_map.items():
       if key.filename != genfile:
         continue          # stale annotations on the shared ast.Load() singleton: identity entries, not judged
@@ -628,7 +646,7 @@ def run_case(case):
   name = 'vp_c12_%d_%d' % (os.getpid(), _SEQ[0])
   stats = {}
   try:
-    mod = harness.load_source(case['src'], name)
+    mod = harness.load_source(case['src'].replace('__UNIQ__', name), name)
   except SyntaxError as e:
     return dict(kind='generator-bug', what='SyntaxError: %s' % e), stats
   signal.signal(signal.SIGALRM, _on_alarm)
@@ -670,8 +688,13 @@ def _block_end(lines, i):
   return j
 
 
-def minimise(case, kind, deadline):
-  """Greedy statement deletion (a statement goes with its block) keeping the same failure kind."""
+def _norm(what):
+  return re.sub(r'\d+', 'N', re.sub(r"'[^']*'", 'S', what))
+
+
+def minimise(case, kind, what, deadline):
+  """Greedy statement deletion (a statement goes with its block) keeping the same failure (kind and wording
+  up to numbers and quoted text); decorators, fuel counters and the failing statement are never deleted."""
   start = PRELUDE.count('\n') if case['src'].startswith(PRELUDE) else 0
   lines = case['src'].split('\n')
   changed = True
@@ -680,7 +703,8 @@ def minimise(case, kind, deadline):
     i = len(lines) - 1
     while i >= start and time.time() < deadline:
       s = lines[i].strip()
-      if not s or s.startswith('def f(') or s.startswith('fuel_') or case['target'] in markers(lines[i]):
+      if (not s or s.startswith('def f(') or s.startswith('fuel_') or s.startswith('@') or s == "'__UNIQ__'"
+          or case['target'] in markers(lines[i])):
         i -= 1
         continue
       cand = lines[:i] + lines[_block_end(lines, i):]
@@ -692,7 +716,7 @@ def minimise(case, kind, deadline):
         continue
       c2 = dict(case, src=src)
       failure, _ = run_case(c2)
-      if failure and failure['kind'] == kind:
+      if failure and failure['kind'] == kind and _norm(failure['what']) == _norm(what):
         lines = cand
         case = c2
         changed = True
@@ -706,27 +730,73 @@ def strip_prelude(src):
   return src.replace(PRELUDE, '# <PRELUDE of c12_errors.py>\n')
 
 
+WITNESS_SRC = 'def f(x):\n  return int(x)\n'
+
+
+def cross_file_cache_witness(_):
+  """Two files with the same function text at the same line: the conversion cache is keyed by code-object
+  equality (which ignores co_filename), so the second file's function reuses the first file's conversion and
+  source map, and its error is reported in the FIRST file.  Genuine defect of the pinned tree; kept out of the
+  random space by the per-load '__UNIQ__' docstrings."""
+  names = ['vp_c12_wa_%d' % os.getpid(), 'vp_c12_wb_%d' % os.getpid()]
+  mods = [harness.load_source(WITNESS_SRC, n) for n in names]
+  try:
+    got = []
+    for m in mods:
+      try:
+        malt.convert(recursive=True)(m.f)('q')
+        got.append(None)
+      except Exception as e:      # pylint:disable=broad-except
+        got.append([mt.group(1) for mt in map(_FRAME.match, str(e).split('\n')) if mt and mt.group(4) == '  *'])
+    if got[0] != [mods[0].__file__]:
+      return dict(kind='harness-error', sig='cross-file-witness', what='first conversion reported %r' % (got[0],), program=WITNESS_SRC)
+    if got[1] != [mods[1].__file__]:
+      return dict(kind='cross-file-cache', sig='identical-function-same-line',
+                  what=('the same function text at the same line of two files: the error raised by the second file\'s function '
+                        'is reported in the first file (%s instead of %s); the conversion cache key is the code object, whose '
+                        'equality ignores co_filename' % tuple(os.path.basename(x) for x in (got[1] or ['<nothing>'])[:1] + [mods[1].__file__])),
+                  program='# file A and file B, identical:\n' + WITNESS_SRC + "# malt.convert(recursive=True)(A.f)('q'); malt.convert(recursive=True)(B.f)('q')")
+    return None
+  finally:
+    for n in names:
+      harness.unload(n)
+
+
+def _batched(items, batch, deadline):
+  """pool_map in batches; no new batch is started after the deadline (the quick tier stays within its wall
+  budget on a loaded machine; `evaluated` reports what was actually run)."""
+  for start in range(0, len(items), batch):
+    if start and time.time() > deadline:
+      return
+    for r in harness.pool_map(check_item, items[start:start + batch], chunksize=2):
+      yield r
+
+
 def main():
   ap = argparse.ArgumentParser()
   ap.add_argument('seed', type=int)
   ap.add_argument('tier')
   ap.add_argument('--n', type=int, default=None)
   ap.add_argument('--maxfail', type=int, default=10)
+  ap.add_argument('--budget', type=float, default=None, help='seconds after which no new batch is started')
   ap.add_argument('--no-minimise', action='store_true')
+  ap.add_argument('--no-witnesses', action='store_true', help='skip the explicit witness of the cross-file cache defect')
   a = ap.parse_args()
-  n = a.n if a.n is not None else (12000 if a.tier == 'thorough' else 900)
+  n = a.n if a.n is not None else (16000 if a.tier == 'thorough' else 1600)
   root = tempfile.mkdtemp(prefix='verif_c12_')
   tempfile.tempdir = root
   os.environ['TMPDIR'] = root
   t_start = time.time()
   try:
     items = [(a.seed, i) for i in range(n)]
-    evaluated = nontrivial = failing = 0
+    evaluated = nontrivial = failing = divergent = 0
+    set_aside = None
     seen = set()
     by_sig = {}
     agg = dict(same_type=0, staging_or_subclass=0, frames=0, map_entries=0, map_entries_fingerprinted=0, chains={}, failkinds={}, contexts={})
     samples = []
-    for r in harness.pool_map(check_item, items, chunksize=2):
+    budget = a.budget if a.budget is not None else (40 if a.tier == 'quick' else 780)
+    for r in _batched(items, 320, t_start + budget):
       evaluated += 1
       st = r['stats']
       if st.get('raised') and r['h'] not in seen and not (r['failure'] and r['failure']['kind'] in ('generator-bug', 'harness-error')):
@@ -741,7 +811,11 @@ def main():
         agg['failkinds'][r['failkind']] = agg['failkinds'].get(r['failkind'], 0) + 1
         for cx in r['ctx'].split('>'):
           agg['contexts'][cx] = agg['contexts'].get(cx, 0) + 1
-      if r['failure']:
+      if r['failure'] and r['failure']['kind'] == 'divergence-C01':
+        divergent += 1
+        if set_aside is None or len(r['case']['src']) < len(set_aside['case']['src']):
+          set_aside = r
+      elif r['failure']:
         failing += 1
         sig = '%s@%s' % (r['failkind'], r['ctx'].split('>')[-1])
         k = (r['failure']['kind'], sig)
@@ -759,7 +833,7 @@ def main():
     for (kind, _), (sig, r) in sorted(reps.items(), key=lambda kv: (kv[0][0], len(kv[1][1]['case']['src'])))[:a.maxfail]:
       case, failure = r['case'], r['failure']
       if not a.no_minimise and kind not in ('generator-bug', 'harness-error'):
-        c2, f2 = minimise(case, kind, min(deadline, time.time() + 4))
+        c2, f2 = minimise(case, kind, failure['what'], min(deadline, time.time() + 4))
         if f2 and f2['kind'] == kind:
           case, failure = c2, f2
       f = dict(failure)
@@ -769,8 +843,21 @@ def main():
       f['chain'] = [list(u) for u in case['units']]
       f['replay'] = 'make_case(seed=%d, idx=%d)' % (a.seed, r['idx'])
       failures.append(f)
+    aside = None
+    if set_aside is not None:
+      case, failure = set_aside['case'], set_aside['failure']
+      if not a.no_minimise:
+        c2, f2 = minimise(case, 'divergence-C01', failure['what'], time.time() + 5)
+        if f2 and f2['kind'] == 'divergence-C01':
+          case, failure = c2, f2
+      aside = dict(what=failure['what'], program=strip_prelude(case['src']), decisions_true=case['true'])
+    if not a.no_witnesses:
+      for w in harness.pool_map(cross_file_cache_witness, [0], procs=1):
+        evaluated += 1
+        if w:
+          failures.append(w)
     harness.emit(dict(
-        evaluated=evaluated, distinct_nontrivial=nontrivial,
+        evaluated=evaluated, planned=n, set_aside_divergent=divergent, set_aside_sample=aside, distinct_nontrivial=nontrivial,
         rule=('seeded random modules f + callee chain k1..kn (n<=4, each callee converted / do_not_convert / called back by '
               'map|sorted|max|filter), exactly one failing statement (%d kinds: explicit raise of builtin and user classes with '
               'and without own constructors, failing builtins, Key/Index/ZeroDivision/Type/Attribute/Name/Assertion/StopIteration '
